@@ -421,12 +421,18 @@ func (g *gen) node(depth int) Node {
 				n.Kids = g.nodes(depth-1, 3)
 			}
 		} else {
-			n.Callee = rapid.SampledFrom([]string{"param", "param", "card", "box", "index0", "index1", "flush"}).Draw(g.t, "callee")
+			n.Callee = rapid.SampledFrom([]string{"param", "param", "card", "box", "index0", "index1", "flush", "flush"}).Draw(g.t, "callee")
 			switch n.Callee {
 			case "flush":
 				// templ.Flush renders its block in place (and flushes the writer afterwards)
 				n.HasBlock = true
 				n.Kids = g.nodes(depth-1, 3)
+				if !g.o.NoErrCalls && rapid.Bool().Draw(g.t, "flushErr") {
+					// an expression that can fail inside the block: the error has to come out of Flush
+					pos := rapid.IntRange(0, len(n.Kids)).Draw(g.t, "flushErrPos")
+					en := Node{Kind: "expr", E: &Expr{Kind: "orerr", Args: []Expr{{Kind: "var", Str: "s1"}}}, Sep: "\n"}
+					n.Kids = append(n.Kids[:pos:pos], append([]Node{en}, n.Kids[pos:]...)...)
+				}
 			case "param":
 				n.Legacy = rapid.IntRange(0, 3).Draw(g.t, "legacy") == 0
 			case "card", "box":
